@@ -74,6 +74,18 @@ def probe_c03(cls, raw, res, framer_name=None, framing=False, junk=b''):  # pyli
         if e_status == 'ok':
             res.violation(('C03', 'exact-accepts-what-immutable-rejects', name), 'entry points disagree',
                           'parse_immutable raised %s but parse_exact_size succeeded' % type(value).__name__)
+        if framing and framer_name:
+            # the converse of the self-delimiting clause: a unit that is accepted alone (consuming all of it) is
+            # accepted, with the same count, whatever follows it in the buffer
+            declared = framer_mod.frame_length(framer_name, raw)
+            if declared is not None and 0 < declared < len(raw):
+                status2, value2, _ = _invoke(cls, 'parse_immutable', raw[:declared])
+                res.stats['c03.selfdelim_reparse'] += 1
+                if status2 == 'ok' and value2[1] == declared:
+                    res.violation(('C03', 'rejected-because-of-following-bytes', name, type(value).__name__),
+                                  'the result depends only on the n consumed bytes',
+                                  'the first %d bytes alone are accepted (n=%d); followed by %d more bytes the parse '
+                                  'raised %s' % (declared, declared, len(raw) - declared, type(value).__name__))
         return None
     try:
         obj, n = value
